@@ -225,7 +225,10 @@ def _case(i):
         res['hist']['early_heart_after_clear_after_jump'] = 1
     if m.st['jumps'] and stats['lines_with_code'] > 1:
         res['hist']['jump_across_lines'] = 1
-    p = C.run_proc([C.HYEONG, '--color', 'never'], ('\n'.join(script) + '\n').encode('utf-8'), cpu=20)
+    eol = '\r\n' if rng.random() < 0.15 else '\n'
+    if eol != '\n':
+        res['hist']['crlf_sessions'] = 1
+    p = C.run_proc([C.HYEONG, '--color', 'never'], (eol.join(script) + eol).encode('utf-8'), cpu=20)
     info = {'program': text, 'lines_entered': script, 'source': name,
             'replay': "printf '%%s\\n' <lines> | %s --color never" % C.HYEONG}
     res['hist']['sessions'] = 1
@@ -272,7 +275,7 @@ def main(tier, seed):
     t0 = time.time()
     rep = C.Reporter(PID, tier, seed)
     C.build(['repo', 'core'])
-    n = 4000 if tier == 'quick' else 40000
+    n = 4000 if tier == 'quick' else 150000
     rundir = C.mktmp(PID)
     _RUN.update(tier=tier, seed=seed, dir=rundir)
     results = C.pmap(_case, list(range(n)), chunksize=4, stop_after_bad=40,
